@@ -268,6 +268,40 @@ def vector_direct(a, b, s, cplx):
         chk("where(tree,tree,scalar)", flat(jft.where(cond, a, 7.0)), np.where(fa > 0, fa, 7.0))
         chk("where(tree,scalar,tree)", flat(jft.where(cond, -1.0, b)), np.where(fa > 0, -1.0, fb))
         chk("where(scalar,tree,tree)", flat(jft.where(True, a, b)), fa)
+        # round 6: all 8 combinations of {tree, scalar} for (condition, x, y), both truth values of a scalar
+        # condition, plain pytrees and Vector-wrapped ones; each equals np.where on the flat arrays
+        # (a scalar broadcasts to every entry).  An exception on a legal combination is a failing input.
+        from jax.tree_util import tree_structure as structure_of
+        fcond = fa > 0
+        sx, sy = -1.5, 7.0
+        for wrapped in (False, True):
+            W = (lambda t: jft.Vector(t)) if wrapped else (lambda t: t)
+            for ct in (True, False):
+                for xt in (True, False):
+                    for yt in (True, False):
+                        for cs in ((None,) if ct else (True, False)):
+                            if wrapped and not (ct or xt or yt):
+                                continue
+                            name = "where(%s,%s,%s)%s" % ("tree" if ct else "scalar " + str(cs), "tree" if xt else "scalar",
+                                                        "tree" if yt else "scalar", " on Vectors" if wrapped else "")
+                            want = np.where(fcond if ct else cs, fa if xt else sx, fb if yt else sy)
+                            anytree = ct or xt or yt
+                            try:
+                                got = jft.where(W(cond) if ct else cs, W(a) if xt else sx, W(b) if yt else sy)
+                                if wrapped:
+                                    if not isinstance(got, jft.Vector):
+                                        fails.append(({"fn": name, "kind": "vector"}, "%s does not return a Vector" % name, None))
+                                        continue
+                                    got = got.tree
+                                if anytree and structure_of(got) != structure_of(a):
+                                    fails.append(({"fn": name, "kind": "vector"}, "%s does not have the structure of the tree arguments" % name, None))
+                                    continue
+                                got = flat(got) if anytree else np.asarray(got)
+                            except Exception as e:
+                                fails.append(({"fn": name, "kind": "vector"}, "%s raises %s: %s (legal broadcast; np.where on the flat arrays is defined)" % (
+                                    name, type(e).__name__, str(e)[:120]), None))
+                                continue
+                            chk(name, got, want)
     chk("Vector.neg", flat((-va).tree), -fa)
     chk("Vector.conj", flat(va.conj().tree), np.conj(fa))
     chk("Vector.real", flat(va.real.tree), np.real(fa))
